@@ -175,9 +175,10 @@ def r3_cfg(toks, stats):
 # ------------------------------------------------------------------------------------------------
 # anchors
 # ------------------------------------------------------------------------------------------------
-def find_impl(toks, m, header):
-    """token range (open_brace, close_brace) of `impl ... {` whose header text equals `header`"""
+def find_impl(toks, m, header, nth=0):
+    """token range (open_brace, close_brace) of the nth `impl ... {` whose header text equals `header`"""
     want = pat(header)
+    seen = 0
     for i, t in enumerate(toks):
         if t.s == "impl":
             j = i
@@ -186,7 +187,8 @@ def find_impl(toks, m, header):
                 j += 1
             hdr = [x.s for x in toks[i:j]]
             if hdr == want:
-                return j, m[j]
+                if seen == nth: return j, m[j]
+                seen += 1
     raise ExtractError("anchor lost: `%s`" % header)
 
 def find_fn(toks, m, name, lo=0, hi=None, nth=0):
@@ -1014,9 +1016,22 @@ def r10_result_unfold(toks, stats):
         m = match_table(toks)
         hit = -1
         for i, t in enumerate(toks):
-            if t.s == "." and i + 2 < len(toks) and toks[i + 1].s == "map_err" and toks[i + 2].s == "(":
+            if t.s == "." and i + 2 < len(toks) and toks[i + 1].s in ("map_err", "or_else") and toks[i + 2].s == "(":
                 hit = i; break
         if hit < 0: return toks
+        if toks[hit + 1].s == "or_else":
+            # E.or_else(|e| B) -> (match E { Ok(vx_v) => Ok(vx_v), Err(e) => B })
+            start = chain_start(toks, m, hit)
+            recv = [x.copy() for x in toks[start:hit]]
+            if recv: recv[0].sp = True
+            args = split_args(toks, m, hit + 2)
+            close = m[hit + 2]
+            cp = closure_parts(args[0]) if len(args) == 1 else None
+            if cp is None or len(cp[0]) != 1: raise ExtractError("R10: Result::or_else needs a one-parameter closure literal")
+            new = T("(match") + recv + T("{ Ok(vx_v) => Ok(vx_v), Err(") + cp[0][0] + T(") =>") + [Tok("o", "{", None, 0, True)] + cp[1] + [Tok("c", "}", None, 0, True)] + T("})")
+            toks[start:close + 1] = new
+            stats["R10.result_or_else"] = stats.get("R10.result_or_else", 0) + 1
+            continue
         start = chain_start(toks, m, hit)
         recv = toks[start:hit]
         args = split_args(toks, m, hit + 2)
@@ -1145,3 +1160,66 @@ def r16_for_desugar(toks, stats, ordinals):
         toks[kw:c + 1] = new
         stats["R16.for_desugar"] = stats.get("R16.for_desugar", 0) + 1
     return toks
+
+
+# ------------------------------------------------------------------------------------------------
+# R9b: `match E.as_str() { "A" | "B" => X, ... , _ => Y }` on string literals -> if-chain over interned literal ids
+#   { let vx_mK = E; if vx_mK.is_lit(idA) || vx_mK.is_lit(idB) { X } else if ... else { Y } }
+# (Verus type-checks a `match` on str but does not link it to the string's value)
+# ------------------------------------------------------------------------------------------------
+def r9_strmatch(toks, stats):
+    n_done = 0
+    while True:
+        m = match_table(toks)
+        hit = None
+        for i, t in enumerate(toks):
+            if t.s == "match":
+                j = i + 1
+                while j < len(toks) and toks[j].s != "{":
+                    if toks[j].k == "o": j = m[j]
+                    j += 1
+                if j >= len(toks): continue
+                # first arm pattern must be a string literal
+                if toks[j + 1].k == "str":
+                    hit = (i, j); break
+        if hit is None: return toks
+        i, ob = hit
+        cb = m[ob]
+        scrut = toks[i + 1:ob]
+        # drop a trailing `.as_str()`
+        if [x.s for x in scrut[-4:]] == [".", "as_str", "(", ")"]: scrut = scrut[:-4]
+        arms = []
+        k = ob + 1
+        while k < cb:
+            pats = []
+            while toks[k].s != "=>":
+                if toks[k].k == "str": pats.append(lit_id(toks[k].s[1:-1]))
+                elif toks[k].s == "|": pass
+                elif toks[k].s == "_": pats = None
+                else: raise ExtractError("R9b: unsupported pattern %r in a match on string literals" % toks[k].s)
+                k += 1
+            k += 1
+            if toks[k].s == "{":
+                body = toks[k:m[k] + 1]; k = m[k] + 1
+            else:
+                b0 = k
+                while k < cb and toks[k].s != ",":
+                    if toks[k].k == "o": k = m[k]
+                    k += 1
+                body = [Tok("o", "{", None, 0, True)] + toks[b0:k] + [Tok("c", "}", None, 0, True)]
+            if k < cb and toks[k].s == ",": k += 1
+            arms.append((pats, body))
+        var = "vx_m%d" % n_done
+        new = T("{ let %s =" % var) + [x.copy() for x in scrut] + T(";")
+        first = True
+        default = None
+        for pats, body in arms:
+            if pats is None: default = body; continue
+            cond = " || ".join("%s.is_lit(%d)" % (var, p) for p in pats)
+            new += T(("if " if first else "else if ") + cond) + body
+            first = False
+        if default is None: raise ExtractError("R9b: match on string literals without a `_` arm")
+        new += T("else") + default + T("}")
+        toks[i:cb + 1] = new
+        n_done += 1
+        stats["R9.strmatch"] = stats.get("R9.strmatch", 0) + 1
